@@ -22,3 +22,43 @@ def corr(ctx, requests, stream="", nontrivial=None):
         q, a, b = bad[0]
         ctx.note_broken("correspondence", stream or "stream", "%d disagreement(s); first: request=%s impl=%s model=%s" % (len(bad), q[:200], a[:200], b[:200]))
     return res, bad
+
+
+KEYWORDS = ["SELECT", "DISTINCT", "FROM", "WHERE", "GROUP", "BY", "HAVING", "ORDER", "LIMIT", "OFFSET", "UNION", "ALL", "EXCEPT", "INTERSECT", "MINUS",
+            "JOIN", "INNER", "LEFT", "RIGHT", "FULL", "OUTER", "CROSS", "ON", "USING", "AS", "AND", "OR", "NOT", "IN", "IS", "NULL", "LIKE", "BETWEEN",
+            "EXISTS", "CASE", "WHEN", "THEN", "ELSE", "END", "WITH", "DESC", "ASC", "OVER", "PARTITION", "SORT", "DISTRIBUTE", "CLUSTER", "INSERT", "INTO",
+            "CAST"]
+_KW = None
+
+
+def recase(rng, text, style=None):
+    """rewrite the letter case of every keyword outside quoted text: upper (as generated), lower, Capitalised, or mixed per keyword / per letter.
+    Identifiers, function names and literals are left alone."""
+    import re
+    global _KW
+    if _KW is None:
+        _KW = re.compile(r"(?<![A-Za-z0-9_.`])(" + "|".join(KEYWORDS) + r")(?![A-Za-z0-9_`])")
+    style = style if style is not None else rng.choice(["upper", "upper", "lower", "lower", "capital", "mixed", "letters"])
+    if style == "upper":
+        return text, style
+
+    def one(m):
+        w = m.group(1)
+        k = style if style != "mixed" else rng.choice(["upper", "lower", "capital", "letters"])
+        if k == "lower": return w.lower()
+        if k == "capital": return w.capitalize()
+        if k == "letters": return "".join(c.lower() if rng.chance(0.5) else c for c in w)
+        return w
+    out, quote = [], None
+    seg = []
+    for c in text:                       # split into quoted / unquoted segments (', ", `)
+        if quote:
+            seg.append(c)
+            if c == quote:
+                out.append("".join(seg)); seg = []; quote = None
+        elif c in "'\"`":
+            out.append(_KW.sub(one, "".join(seg))); seg = [c]; quote = c
+        else:
+            seg.append(c)
+    out.append(_KW.sub(one, "".join(seg)) if not quote else "".join(seg))
+    return "".join(out), style
